@@ -175,11 +175,11 @@ def init_contract(m):
             if f.wire == 'table':
                 if arg is None:
                     # a fresh empty dict allocated by this call (C16): python dict created in the body
-                    if not (isinstance(got, dict) and not got):
-                        return False
+                    if not (isinstance(got, dict) and not got and id(got) in st.fresh_ids):
+                        return False      # must be allocated by this call, not a shared default
                     continue
                 # `x or {}`: an empty dict argument may be replaced by a fresh empty dict
-                if isinstance(got, dict) and not got:
+                if isinstance(got, dict) and not got and id(got) in st.fresh_ids:
                     from pyvc.contract import obj_nonempty
                     terms.append(z3.Not(obj_nonempty(arg.t)))
                     continue
@@ -190,7 +190,7 @@ def init_contract(m):
     def effects(c):
         for f in m.fields:
             v = getattr(c, f.name)
-            c.self.attrs[f.name] = {} if (f.wire == 'table' and v is None) else v
+            c.self.attrs[f.name] = c.st.allocated({}) if (f.wire == 'table' and v is None) else v
 
     cases = [Case('constructed', when=lambda c: valid(c.st, m, args_as_attrs(c)), post=post, effects=effects)]
     if tables.constraints(m):
@@ -235,11 +235,15 @@ def unmarshal_contract(m):
             t, exact = values_equal(c.st, c.self.attrs[name], values[name])
             terms.append(t if exact else False)
         only = all(w[0] == c.self.label and w[2] in dict(fields) for w in c.st.writes if len(w) == 3)
-        return conj(only, *terms)
+        from pyvc.contract import is_fresh
+        fresh = all(is_fresh(c.st, c.self.attrs[name]) for name, _ in fields)     # decoded containers belong to this frame only
+        return conj(only, fresh, *terms)
 
     def eff_good(c):
         values, consumed, cond = parsed(c)
+        from pyvc.contract import mark_fresh
         for name, _ in fields:
+            mark_fresh(c.st, values[name])
             c.self.attrs[name] = values[name]
             c.st.writes.append((c.self.label, c.self.provenance, name))
 
